@@ -51,7 +51,7 @@ pub fn eval(case: &J) -> Outcome {
     let inj = match guarded(|| a.inject_into(&b)) {
         Ok(Ok(i)) => i,
         Ok(Err(_)) => { out.tag("no-injection"); out.tag("trivial"); return out; }
-        Err((loc, msg)) => { out.tag("trivial"); out.fail(&format!("C18/inj/inject_into-panic/{}", site_file(&loc)), format!("inject_into({a}, {b}) panicked: {msg}")); return out; }
+        Err((loc, msg)) => { out.tag("trivial"); out.fail(&format!("C18/inj/inject_into-panic/{}", site(&loc, &msg)), format!("inject_into({a}, {b}) panicked: {msg}")); return out; }
     };
     // the conversion is "accepted" when into_data_type succeeds (inject_into itself is lazy)
     let img = guarded(|| a.into_data_type(&b).map_err(|e| qrlew::data_type::injection::Error::NoInjection(e.to_string())));
@@ -62,7 +62,7 @@ pub fn eval(case: &J) -> Outcome {
     let mut images: Vec<(Value, Value)> = vec![];
     for v in &vals {
         match guarded(|| inj.value(v)) {
-            Err((loc, msg)) => out.fail(&format!("C18/inj/value-panic/{}", site_file(&loc)), format!("converting {v} from {a} into {b} panicked: {msg}")),
+            Err((loc, msg)) => out.fail(&format!("C18/inj/value-panic/{}", site(&loc, &msg)), format!("converting {v} from {a} into {b} panicked: {msg}")),
             Ok(Err(e)) => out.fail(&format!("C12/inj/{pair}/not-total/{}", vclass(v)), format!("{a} converts into the variant of {b}, but its member {v} is refused: {e}")),
             Ok(Ok(w)) => {
                 if let Ok(Ok(t)) = &img { if !guarded(|| t.contains(&w)).unwrap_or(true) { out.fail(&format!("C12/inj/{pair}/image-not-in-super-image/{}", vclass(v)), format!("{v} of {a} converts to {w}, which is outside the converted type {t}")); } }
@@ -151,7 +151,7 @@ pub fn eval_base(case: &J) -> Outcome {
         exact: &dyn Fn(&D::Element, &C::Element) -> bool, class: &dyn Fn(&D::Element) -> &'static str)
         where injection::Base<D, C>: Injection<Domain = D, CoDomain = C>, D::Element: Clone + PartialEq + std::fmt::Display, C::Element: Clone + PartialEq + std::fmt::Display {
         let inj = match guarded(|| injection::From(dom.clone()).into(cod.clone())) { Ok(Ok(i)) => i, Ok(Err(_)) => { out.tag("trivial"); out.tag("no-injection"); return; }
-            Err((loc, msg)) => { out.tag("trivial"); out.fail(&format!("C18/injbase/{name}/panic/{}", site_file(&loc)), msg); return; } };
+            Err((loc, msg)) => { out.tag("trivial"); out.fail(&format!("C18/injbase/{name}/panic/{}", site(&loc, &msg)), msg); return; } };
         let img = guarded(|| inj.super_image(&dom));
         let accepted = matches!(img, Ok(Ok(_)));
         out.tag(if accepted { "accepted" } else { "refused" });
@@ -165,7 +165,7 @@ pub fn eval_base(case: &J) -> Outcome {
                     images.push((v.clone(), w));
                 }
                 Ok(Err(_)) => { if accepted { out.fail(&format!("C12/injbase/{name}/not-total/{cls}"), format!("{dom} converts into {cod} (super_image succeeds) but its member {v} is refused")); } }
-                Err((loc, msg)) => out.fail(&format!("C18/injbase/{name}/value-panic/{}", site_file(&loc)), msg),
+                Err((loc, msg)) => out.fail(&format!("C18/injbase/{name}/value-panic/{}", site(&loc, &msg)), msg),
             }
         }
         for i in 0..images.len() { for j in 0..i { if images[i].0 != images[j].0 && images[i].1 == images[j].1 {
